@@ -16,6 +16,7 @@ Structural clauses decided (DESIGN.md section 4, C16):
 import ast
 
 from sa import core
+from sa import formula
 from sa import pycfg
 from sa import tpl
 
@@ -648,6 +649,18 @@ def check(model, rep, tier):
                      if isinstance(c, ast.Call) and isinstance(c.func, ast.Name)
                      and c.func.id in fi.params(skip_self=False)]
       ok = bool(inner_calls)
+    # ... and every function handed back is that wrapper: the argument itself is
+    # never returned (whatever it is: an artifact marks "call as is", it says
+    # nothing about what the object does when called)
+    fp_ = fi.params(skip_self=False)[0]
+    unwrapped = []
+    for r_ in core.walk_no_nested(fi.node):
+      if isinstance(r_, ast.Return) and r_.value is not None and \
+          tpl.xnorm(fi, r_.value, r_) == fp_:
+        f_ = formula.condition_formula(fi.node, r_, lambda e: core.norm(e))
+        if not formula.implies(f_, formula.atom('%s is None' % fp_))[0]:
+          unwrapped.append(core.norm(r_))
+    ok = ok and not unwrapped
     rep.check(ok, 'CTX-STATUS', '%s:status' % fi.site,
               '%s must run the wrapped function inside `with '
               'ControlStatusCtx(status=Status.%s)`' % (fname, want),
